@@ -5,6 +5,7 @@ from typing_extensions import Self
 from ..linalg.decomposer import Decomposer
 from ..utils.data_types import DataArray, DataObject
 from ..utils.sanity_checks import assert_not_complex
+from ..utils.xarray_utils import get_deterministic_sign_multiplier
 from .base_model_single_set import BaseModelSingleSet
 from .eof import EOF
 
@@ -230,6 +231,11 @@ class OPA(BaseModelSingleSet):
             U.rename({"mode": "mode2"}), dims="feature1"
         )
         # -> V (mode1 x mode2)
+
+        # The sign of an eigenvector is arbitrary: fix it for deterministic output
+        sign = get_deterministic_sign_multiplier(V, "mode1")
+        V = V * sign
+        U = U * sign.rename({"mode2": "mode"})
 
         # Compute the optimally persistent patterns (OPPs)
         W = xr.dot(
